@@ -12,6 +12,7 @@ integer 1000 * ticks + epsilons.
 
 from __future__ import annotations
 
+import json
 import math
 import random
 
@@ -80,10 +81,25 @@ def tclose(a: float, b: float) -> bool:
     return abs(a - b) <= 1e-9 * max(1.0, abs(a), abs(b))
 
 
+KEEP = -1   # spec: the step does not name this parameter
+
+
+def step_dicts(steps: list, r: Rendering, salt: int) -> list:
+    """[(duration, {name: value})] with the key order alternating between consecutive steps (so every step after
+    the first is written in another order than the first one at least every second time) and KEEP entries left out."""
+    out = []
+    for i, s in enumerate(steps):
+        items = [("kin", s["p"]["kin"]), ("k", s["p"]["kk"])]
+        if (i + salt) % 2 == 1:
+            items.reverse()
+        out.append((s["d"] * r.ts, {n: v * r.ps for n, v in items if v != KEEP}))
+    return out
+
+
 class Run:
     """One real Simulator driven by specification operations."""
 
-    def __init__(self, r: Rendering = SMALL):
+    def __init__(self, r: Rendering = SMALL, salt: int = 0):
         from mxlpy import Simulator
 
         self.r = r
@@ -92,6 +108,9 @@ class Run:
         self.bases = {0: 0.0}
         self.touched = False     # the history has read the computed views of a result
         self.grids: dict = {}    # a caller keeps and reuses its time grids: one float64 array object per grid
+        self.salt = salt         # seeds the rendering choices of protocol tables
+        self.ncalls = 0
+        self.stats: dict = {}
 
     def grid(self, kind: str, values: list):
         """The caller's array for this grid: created once, handed over again whenever the same grid is asked for."""
@@ -110,10 +129,29 @@ class Run:
         return (v // 1000) * self.r.ts + (v % 1000) * self.r.eps
 
     def protocol(self, steps):
+        """The protocol table for the specification's steps.  A step is a function name -> value; HOW it is written
+        down is a choice of this rendering (seeded by self.salt): the key order of the step dicts alternates from
+        step to step, a parameter the step does not name (KEEP) is left out, and the table is built by
+        make_protocol or by hand as a DataFrame with a Timedelta index (columns in order of first appearance)."""
+        import pandas as pd
+
         from mxlpy import make_protocol
 
-        r = self.r
-        return make_protocol([(s["d"] * r.ts, {"kin": s["p"]["kin"] * r.ps, "k": s["p"]["kk"] * r.ps}) for s in steps])
+        self.ncalls += 1
+        written = step_dicts(steps, self.r, self.salt + self.ncalls)
+        if len(written) > 1:
+            self.stats["protocol_key_order_varies"] = self.stats.get("protocol_key_order_varies", 0) + 1
+        if any(len(d) < 2 for _, d in written):
+            self.stats["protocol_step_omits_a_parameter"] = self.stats.get("protocol_step_omits_a_parameter", 0) + 1
+        if (self.salt // 2 + self.ncalls) % 2 == 0:
+            self.stats["protocol_by_make_protocol"] = self.stats.get("protocol_by_make_protocol", 0) + 1
+            return make_protocol(written)
+        self.stats["protocol_by_hand_made_dataframe"] = self.stats.get("protocol_by_hand_made_dataframe", 0) + 1
+        cum, idx = 0.0, []
+        for d, _ in written:
+            cum += d
+            idx.append(cum)
+        return pd.DataFrame([d for _, d in written], index=pd.to_timedelta(idx, unit="s"))
 
     def apply(self, op: dict) -> dict:
         """Perform the call; returns {'raised': bool, 'exc': class name or None}."""
@@ -308,8 +346,10 @@ def replay_history(hist_steps: list, *, views_at_end: bool = True, r: Rendering 
     """Drive one emitted behaviour through the real Simulator; compare after every step.  Raw results are compared
     after every call; the computed views as well once the history itself has read them (operation "read"), and
     always at the end."""
-    run = Run(r)
-    stats: dict = {}
+    import zlib
+
+    run = Run(r, salt=zlib.crc32(json.dumps([s["op"] for s in hist_steps], sort_keys=True).encode()))
+    stats = run.stats
     obs = None
     for j, step in enumerate(hist_steps):
         got = run.apply(step["op"])
@@ -356,6 +396,10 @@ def classify(hist_steps: list, detail: dict) -> str | None:
     before = ops[start:j]
     cur = ops[j]
     book = ("raised", "index", "axis-not-increasing", "segment-count", "trace")
+    if any(s["op"]["k"] in ("proto", "ptc") and
+           any(KEEP in (st["p"]["kin"], st["p"]["kk"]) for st in s["op"]["steps"]) for s in hist_steps[start:j + 1]) \
+            and what in ("raised", "parameters", "values", "trace", "result", "index", "segment-count"):
+        return "protocol-step-omits-a-parameter"
     if "read" in before and what in ("views-index", "views-values"):
         return "views-stale-after-continuation"
     if "ss" in before and cur in ADVANCING + ("ss",) and what in book + ("values",):
@@ -377,6 +421,8 @@ def classify(hist_steps: list, detail: dict) -> str | None:
 # ---- code -> spec: a seeded random driver that records what the real Simulator does --------------------------
 def to_ticks(v: float, r: Rendering = SMALL):
     """Model time -> 1000 * ticks + epsilons, or None when it is not on the grid."""
+    if not math.isfinite(v):
+        return None
     o = round(v / r.ts)
     rem = v - o * r.ts
     e = round(rem / r.eps)
@@ -386,12 +432,15 @@ def to_ticks(v: float, r: Rendering = SMALL):
 
 
 def to_units(v: float, r: Rendering = SMALL):
+    if not math.isfinite(v):
+        return None
     q = v / r.ps
     u = round(q)
     return int(u) if abs(q - u) <= 1e-9 * max(1.0, abs(q)) else None
 
 
-PAR_CHOICES = [(128, 64), (64, 128), (192, 32), (128, 16), (32, 64), (64, 4), (0, 64), (0, 16)]
+PAR_CHOICES = [(128, 64), (64, 128), (192, 32), (128, 16), (32, 64), (64, 4), (0, 64), (0, 16), (KEEP, 32), (192, KEEP),
+               (KEEP, 128)]
 DEFAULT_WEIGHTS = {"sim": 5, "tc": 4, "proto": 2, "ptc": 3, "upd": 3, "scale": 1, "ov": 3, "ss": 1, "clear": 1,
                    "read": 2}
 
@@ -490,7 +539,7 @@ def record_trace(seed, length: int, weights: dict | None = None, ops: list | Non
     weights = dict(weights or DEFAULT_WEIGHTS)
     if r is LARGE:
         weights["ss"] = 0
-    run = Run(r)
+    run = Run(r, salt=rnd.randrange(1 << 16))
     ev = []
     offgrid = None
     values = []
